@@ -4,7 +4,7 @@ from __future__ import annotations
 import os
 import random
 
-from translator import gen_crash
+from translator import gen_crash, gen_crash_schema
 
 from . import c05_crash as cc
 from . import c05_windows as cw
@@ -14,7 +14,7 @@ from .common import coq_bool, coq_list, coq_str
 PID = "C05"
 PROPS_FILE = "props/C05.v"
 MODEL_TARGETS = ["model/Crash.vo", "model/GraphDump.vo", "model/GraphInv.vo", "model/CrashStartup.vo",
-                 "model/CrashEngine.vo", "model/CrashHist.vo"]
+                 "model/CrashEngine.vo", "model/CrashHist.vo", "model/CrashSchema.vo"]
 RULE = ("E3 crash runs on the real director: a project (8 hand-written families: chain, diamond, sub-plan, "
         "amended inputs/outputs with deferral, optional chain whose consumer is dropped, dropped steps with nested "
         "directories and volatile outputs, newly declared static files + env change, failing step; plus "
@@ -36,7 +36,9 @@ RULE = ("E3 crash runs on the real director: a project (8 hand-written families:
         "the restart, and the model of the startup sequence (with the GENERATED block structure of rescan_env_vars) "
         "run on the crashed tables and the observed world ends in the tables of the real successor. "
         "quick: the three witnesses (D6, D6b, D13) + 8 seeded points on each of 5 projects + 7 startup cases (one "
-        "per class of evidence) at all their startup points + 2 directed cleanup cases (every end-of-build "
+        "per class of evidence; quick: 4 of the 7 classes, 4 projects x 6 points) at all their startup points + a "
+        "first start killed before statements of DBSession.apply_schema (autocommit mode) + a step RUNNING and "
+        "detached at the kill + 2 directed cleanup cases (every end-of-build "
         "transaction before/after and every removal of remove_deletable_files) + 1 watch case (a WATCHING director "
         "killed in the transactions of its watcher, of start_build_phase and of the rebuild); thorough: every point "
         "(removals included) of 30 projects + 28 startup cases + 7 watch cases. The distribution of the points over "
@@ -93,12 +95,20 @@ SST = {21: "SPending", 22: "SRunning", 23: "SSucceeded", 24: "SFailed", 25: "SCh
 NEED = {31: "NOptional", 32: "NDefault", 34: "NPlan"}
 HEADER = ("From Coq Require Import List NArith Bool.\nImport ListNotations.\n"
           "From SV Require Import lib.Bytes model.Graph model.GraphDump model.GraphInv gen.GenCrash model.Crash "
-          "model.CrashStartup.\n"
+          "model.CrashStartup.\nFrom SV Require gen.GenCrashSchema model.CrashSchema.\n"
           "Open Scope N_scope.\n")
 
 
 def generate(ctx):
-    ctx.write_gen("GenCrash.v", gen_crash.generate())
+    # two files: a change of apply_schema must not take the transaction-level obligations down with it
+    errors = []
+    for name, mod in (("GenCrashSchema.v", gen_crash_schema), ("GenCrash.v", gen_crash)):
+        try:
+            ctx.write_gen(name, mod.generate())
+        except Exception as exc:  # noqa: BLE001  (re-raised below: fail closed)
+            errors.append(exc)
+    if errors:
+        raise errors[0]
 
 
 # -- Gallina terms -----------------------------------------------------------------------------
@@ -194,9 +204,11 @@ def _jobs(ctx):
         for n in cc.WATCH_FAMILIES:
             jobs.append({"case": cc.make_case(n, ctx.seed * 4 + 1), "watch": True, "seed": ctx.seed})
         jobs.append({"case": cc.make_case("detachrun", ctx.seed)})
+        jobs.append({"case": cc.witness_d13(), "points": "schema", "dense": True})
+        jobs.append({"case": cc.make_case("chain", ctx.seed * 4 + 1), "points": "schema"})   # not a first start
     else:
-        picks = [(n, rng.randrange(1000)) for n in rng.sample(names, 4)] + [("gen", rng.randrange(1000))]
-        jobs += [{"case": cc.make_case(n, s), "sample": 8, "seed": ctx.seed} for n, s in picks]
+        picks = [(n, rng.randrange(1000)) for n in rng.sample(names, 3)] + [("gen", rng.randrange(1000))]
+        jobs += [{"case": cc.make_case(n, s), "sample": 6, "seed": ctx.seed} for n, s in picks]
         # startup families: one case of every class of evidence the startup sequence compares with
         # the outside world (tracked environment variable, file hash, glob matches, interrupted
         # step) and one combination, killed at EVERY commit of the startup sequence
@@ -204,6 +216,8 @@ def _jobs(ctx):
                    ["source", "source-delete", "plan-touch"], ["out-del", "out-tamper"],
                    ["glob-add", "glob-del"], ["interrupted"], ["combo"]]
         used = set()
+        # the class of tracked variables always, three of the other six (thorough: all of them, twice)
+        classes = classes[:1] + rng.sample(classes[1:], 3)
         for cl in classes:
             kind = rng.choice([k for k in cl if k not in used] or cl)
             used.add(kind)
@@ -214,6 +228,9 @@ def _jobs(ctx):
         # project that reverts optional steps and one that drops steps (incremental builds)
         for n in ("optional", rng.choice(["drop", "subplan"])):
             jobs.append({"case": cc.make_case(n, 4 * rng.randrange(250) + rng.randrange(3)), "points": "cleanup"})
+        # directed: a kill inside DBSession.apply_schema of a first start (autocommit mode: before the
+        # two stamps, the first CREATEs, every eighth statement, the last three)
+        jobs.append({"case": cc.witness_d13(), "points": "schema"})
         # directed: a step RUNNING and detached at the kill (its creator is being re-executed)
         jobs.append({"case": cc.make_case("detachrun", rng.randrange(1000)), "points": "detached"})
         # directed: a watching director killed in the transactions of its watcher, of
@@ -297,9 +314,15 @@ def correspondence(ctx):
         common.coq_make(list(MODEL_TARGETS))
     verdicts = common.eval_terms(ctx, "witness", HEADER, [
         "no_orphans_b W2 [] d6_sys", "no_orphans_b W1 [s_o] d6b_sys",
-        "match open_db_now false 100 (db_at 100 d6_history 0) with Ok _ => true | _ => false end"])
-    want = {"d6": verdicts[0], "d6b": verdicts[1], "d13": verdicts[2]}
+        "match open_db_now false 100 (db_at 100 d6_history 0) with Ok _ => true | _ => false end",
+        "forallb (CrashSchema.reopens_b GenCrashSchema.apply_schema_writes 6) (seq 0 10)"])
+    want = {"d6": verdicts[0], "d6b": verdicts[1], "d13": verdicts[2], "schema": verdicts[3]}
     seen = {}
+    for case, ref, pr in _points(results):
+        if pr["crashed"] and (pr.get("info") or {}).get("kind") == "schema-stmt":
+            seen.setdefault("schema", "true")
+            if any(f["kind"] == "restart-raises" for f in pr["fails"]):
+                seen["schema"] = "false"
     for case, ref, pr in _points(results):
         if case["name"].startswith("witness-") and pr["crashed"]:
             seen.setdefault(case["name"][len("witness-"):], "true")
@@ -313,7 +336,8 @@ def correspondence(ctx):
     for key in seen:
         if want[key] != seen[key]:
             ctx.add_failure("correspondence", f"witness-{key}", f"E3:witness-verdict:{key}",
-                            f"the model says '{want[key]}' for the {key} witness (no orphan / open succeeds) but the "
+                            f"the model says '{want[key]}' for the {key} witness (no orphan / open succeeds / every "
+                            f"prefix of apply_schema reopens) but the "
                             f"real system showed '{seen[key]}'", witness={"witness": key})
 
 
@@ -376,6 +400,7 @@ def _deep(ctx):
     jobs += [{"case": cc.make_case(n, 4 * rng.randrange(250)), "points": "cleanup"} for n in ("optional", "drop", "subplan")]
     jobs += [{"case": cc.make_case(n, 4 * rng.randrange(250)), "watch": True} for n in ("optional", "amend", "chain")]
     jobs.append({"case": cc.make_case("detachrun", rng.randrange(10000))})
+    jobs.append({"case": cc.witness_d13(), "points": "schema", "dense": True})
     return e3.pool_map(cc.run_job, jobs, nproc=6)
 
 
